@@ -198,6 +198,17 @@ def gen_bulk_case(rng):
             'completed': [rng.choice([0, 0, 1, 2, 5, 9, 10, 99]) for _ in range(3)]}
 
 
+def flush(ck, batch):
+    """run the queued model ops in one driver start and hand every answer to its comparison"""
+    if not batch:
+        return
+    answers = ck.model([op for op, _f in batch])
+    for (op, f), ans in zip(batch, answers):
+        if isinstance(ans, dict) and 'err' in ans:
+            raise lib.InfraError('model rejected %s' % op['op'])
+        f(ans)
+
+
 # --------------------------------------------------------------- sessions
 def gen_session_scenario(rng):
     with_fail = rng.random() < 0.7
@@ -235,6 +246,7 @@ def parse_plan(stdout):
 
 
 def check_sessions(ck, scenarios):
+    batch = []
     for idx, sc in enumerate(scenarios):
         wd = os.path.join(ck.scratch, 'sess%d' % idx)
         os.makedirs(wd)
@@ -377,38 +389,42 @@ def check_sessions(ck, scenarios):
                 if recorded[m] != want:
                     ck.oracle_fail('invocation_number', inp, {'run': m, 'recorded': recorded[m], 'expected': want},
                                    {'where': 'data file'})
-            # ---- model
+            # ---- model (queued: one driver start for all scenarios)
             ordered = [by_marker['m%dm' % j] for j in range(n) if ('m%dm' % j) in by_marker]
-            ans = ck.model([{'op': 'c03.sessions', 'world': w, 'runs': [dc.model_run(info, r) for r in ordered],
-                             'sessions': model_sessions[:len(observed)]}])[0]
-            if 'err' in ans:
-                raise lib.InfraError('model rejected c03.sessions')
-            m_recorded = dict((m, []) for m in by_marker)
-            for s_i, (events, obs) in enumerate(zip(ans, observed)):
-                inp = dict(sc, session_index=s_i)
-                if 'plan' in obs:
-                    m_plan = sorted(([e['cd'], e['cmd']] for e in events if e['t'] == 'plan'), key=json.dumps)
-                    others = [e for e in events if e['t'] != 'plan']
-                    if m_plan != obs['plan'] or others:
-                        ck.disagree('c03.sessions: plan printed by -p vs RB.Cmdline.session', inp,
-                                    obs['plan'], m_plan, THEOREMS_PLAN)
-                else:
-                    for j in range(n):
-                        m = 'm%dm' % j
-                        ms = [{'text': e['text'], 'cwd': e['cwd'], 'env': sorted((k, v) for k, v in e['env'])}
-                              for e in events if e['t'] == 'start' and e['run'] == j]
-                        os_ = [{'text': s['text'], 'cwd': s['cwd'],
-                                'env': None if s['env'] is None else [tuple(x) for x in s['env']]}
-                               for s in obs['starts'].get(m, [])]
-                        for x in ms:
-                            x['env'] = [tuple(e) for e in x['env']]
-                        if ms != os_:
-                            ck.disagree('c03.sessions: starts of run %s vs RB.Cmdline.session' % m, inp,
-                                        os_, ms, THEOREMS_LAUNCH + THEOREMS_TEXT)
-                        m_recorded[m] += [e['inv'] for e in events if e['t'] == 'append' and e['run'] == j]
-            if len(observed) == len(sc['sessions']) and m_recorded != recorded:
-                ck.disagree('c03.sessions: invocation numbers in the data file vs model', dict(sc, session_index='all'),
-                            recorded, m_recorded, ['RB.Cmdline.c03_invocation_number'])
+            op = {'op': 'c03.sessions', 'world': w, 'runs': [dc.model_run(info, r) for r in ordered],
+                  'sessions': model_sessions[:len(observed)]}
+
+            def compare(ans, sc=sc, observed=observed, by_marker=by_marker, n=n, recorded=recorded):
+                if 'err' in ans:
+                    raise lib.InfraError('model rejected c03.sessions')
+                m_recorded = dict((m, []) for m in by_marker)
+                for s_i, (events, obs) in enumerate(zip(ans, observed)):
+                    inp = dict(sc, session_index=s_i)
+                    if 'plan' in obs:
+                        m_plan = sorted(([e['cd'], e['cmd']] for e in events if e['t'] == 'plan'), key=json.dumps)
+                        others = [e for e in events if e['t'] != 'plan']
+                        if m_plan != obs['plan'] or others:
+                            ck.disagree('c03.sessions: plan printed by -p vs RB.Cmdline.session', inp,
+                                        obs['plan'], m_plan, THEOREMS_PLAN)
+                    else:
+                        for j in range(n):
+                            m = 'm%dm' % j
+                            ms = [{'text': e['text'], 'cwd': e['cwd'], 'env': sorted((k, v) for k, v in e['env'])}
+                                  for e in events if e['t'] == 'start' and e['run'] == j]
+                            os_ = [{'text': s['text'], 'cwd': s['cwd'],
+                                    'env': None if s['env'] is None else [tuple(x) for x in s['env']]}
+                                   for s in obs['starts'].get(m, [])]
+                            for x in ms:
+                                x['env'] = [tuple(e) for e in x['env']]
+                            if ms != os_:
+                                ck.disagree('c03.sessions: starts of run %s vs RB.Cmdline.session' % m, inp,
+                                            os_, ms, THEOREMS_LAUNCH + THEOREMS_TEXT)
+                            m_recorded[m] += [e['inv'] for e in events if e['t'] == 'append' and e['run'] == j]
+                if len(observed) == len(sc['sessions']) and m_recorded != recorded:
+                    ck.disagree('c03.sessions: invocation numbers in the data file vs model', dict(sc, session_index='all'),
+                                recorded, m_recorded, ['RB.Cmdline.c03_invocation_number'])
+            batch.append((op, compare))
+    flush(ck, batch)
 
 
 # ----------------------------------------------------------- real launches
@@ -424,6 +440,7 @@ def gen_real_scenario(rng):
 
 
 def check_real(ck, scenarios):
+    batch = []
     for idx, sc in enumerate(scenarios):
         wd = os.path.realpath(os.path.join(ck.scratch, 'real%d' % idx))
         os.makedirs(wd)
@@ -469,9 +486,29 @@ def check_real(ck, scenarios):
                     ck.oracle_fail('command_exact', inp, {'unattributable_start': e['argv']},
                                    {'class': 'marker-lost', 'outcome': 'wrong-text'})
             ordered = [by_marker['m%dm' % j] for j in range(len(names)) if ('m%dm' % j) in by_marker]
-            ans = ck.model([{'op': 'c03.sessions', 'world': w, 'runs': [dc.model_run(info, r) for r in ordered],
-                             'sessions': [{'plan': False,
-                                           'outcomes': [['ok'] * len(seen['m%dm' % j]) for j in range(len(names))]}]}])[0][0]
+            op = {'op': 'c03.sessions', 'world': w, 'runs': [dc.model_run(info, r) for r in ordered],
+                  'sessions': [{'plan': False,
+                                'outcomes': [['ok'] * len(seen['m%dm' % j]) for j in range(len(names))]}]}
+
+            def compare(ans, seen=seen, names=names, info=info, inp=inp, wd=wd):
+                events = ans[0]
+                for j in range(len(names)):
+                    m = 'm%dm' % j
+                    model_starts = [e for e in events if e['t'] == 'start' and e['run'] == j]
+                    if len(model_starts) != len(seen.get(m, [])):
+                        ck.disagree('c03.real: number of starts vs RB.Cmdline.session', inp,
+                                    len(seen.get(m, [])), len(model_starts), THEOREMS_LAUNCH)
+                    for e, ms in zip(seen.get(m, []), model_starts):
+                        child_env = dict((a, b) for a, b in e['env'].items()
+                                         if a not in dc.SH_ADDS or a in info['env'])
+                        m_env = dict((a, b) for a, b in ms['env'])
+                        if ms['argv'][1:] != e['argv'] or m_env != child_env or \
+                                os.path.realpath(ms['cwd'] or wd) != os.path.realpath(e['cwd']):
+                            ck.disagree('c03.real: process seen by the fake harness vs RB.Cmdline.launch', inp,
+                                        {'argv': e['argv'], 'cwd': e['cwd'], 'env': child_env},
+                                        {'argv': ms['argv'], 'cwd': ms['cwd'], 'env': m_env},
+                                        THEOREMS_LAUNCH + THEOREMS_TEXT)
+            batch.append((op, compare))
             for j in range(len(names)):
                 m = 'm%dm' % j
                 run = by_marker[m]
@@ -479,7 +516,6 @@ def check_real(ck, scenarios):
                     ck.oracle_fail('invocation_number', inp, {'run': m, 'starts': len(seen[m]),
                                                               'configured': info['invocations']},
                                    {'where': 'fake harness log'})
-                model_starts = [e for e in ans if e['t'] == 'start' and e['run'] == j]
                 for k, e in enumerate(seen[m]):
                     spec = dc.spec_launch(info, run, k + 1, wd, home, users_dict())
                     child_env = dict((a, b) for a, b in e['env'].items()
@@ -497,19 +533,13 @@ def check_real(ck, scenarios):
                         ck.oracle_fail('env_exact', inp, {'expected': want_env, 'observed': child_env,
                                                           'inherited_from_rebench': inherited},
                                        {'where': 'fake harness', 'inherited': bool(inherited)})
-                    if k < len(model_starts):
-                        ms = model_starts[k]
-                        m_env = dict((a, b) for a, b in ms['env'])
-                        if ms['argv'][1:] != e['argv'] or m_env != child_env or \
-                                os.path.realpath(ms['cwd'] or wd) != os.path.realpath(e['cwd']):
-                            ck.disagree('c03.real: process seen by the fake harness vs RB.Cmdline.launch', inp,
-                                        {'argv': e['argv'], 'cwd': e['cwd'], 'env': child_env},
-                                        {'argv': ms['argv'], 'cwd': ms['cwd'], 'env': m_env},
-                                        THEOREMS_LAUNCH + THEOREMS_TEXT)
                 ck.case(nontrivial_key=('r', idx, j),
                         sample={'real_argv': seen[m][0]['argv'] if seen[m] else None,
                                 'env_keys': sorted(seen[m][0]['env']) if seen[m] else None,
                                 'parent_vars': len(os.environ)} if idx < 1 else None)
+
+
+    flush(ck, batch)
 
 
 # ------------------------------------------------------------------ driver
@@ -547,9 +577,9 @@ def run(ck):
                       'command, e.g. Time, are not modelled); `/bin/sh` word splitting and `shlex` are taken as '
                       'given and cross-checked by the real launches']
     dispatch(ck, load_corpus())
-    n_bulk = 450 if quick else 12000
-    n_sess = 30 if quick else 600
-    n_real = 6 if quick else 120
+    n_bulk = 1000 if quick else 15000
+    n_sess = 60 if quick else 800
+    n_real = 10 if quick else 150
     dispatch(ck, [gen_bulk_case(ck.rng) for _ in range(n_bulk)])
     dispatch(ck, [gen_session_scenario(ck.rng) for _ in range(n_sess)])
     dispatch(ck, [gen_real_scenario(ck.rng) for _ in range(n_real)])
